@@ -217,7 +217,7 @@ InitWith(c) == cfg = c /\ phase = "new" /\ lk = NoView /\ cur = Pristine /\ verd
 Create == phase = "new" /\ phase' = "created" /\ UNCHANGED <<cfg, lk, cur, verdict, obs>>
 
 \* the written file is read back: every node directory holds the same file, and it says what was asked for
-Load(w) == /\ phase \in {"created", "loaded", "verified"} /\ ViewOK(cfg, w)
+Load(w) == /\ phase = "created" /\ ViewOK(cfg, w)
            /\ lk' = w /\ phase' = "loaded" /\ cur' = Pristine /\ verdict' = "none" /\ UNCHANGED <<cfg, obs>>
 
 \* the pristine artifact passes full hash and signature verification
@@ -225,18 +225,20 @@ Verify == /\ phase = "loaded" /\ cur.state = "pristine"
           /\ phase' = "verified" /\ verdict' = "intact" /\ UNCHANGED <<cfg, lk, cur, obs>>
 
 Idle == phase = "verified" /\ cur.state \in {"pristine", "done"}
+\* the other artifacts are looked at next to the pristine lock (an altered copy is discarded)
+Back == cur' = Pristine /\ verdict' = "intact" /\ UNCHANGED <<cfg, phase, lk>>
 
 \* node i's keystore directory (i in 1..n): the public keys of the stored shares, one per validator
 ShareIdx(i) == IF WriteOrder = "node" THEN i ELSE cfg.n + 1 - i
 Keystores(i) == /\ Idle /\ cfg.src = "create" /\ i \in 1..cfg.n
                 /\ obs' = [kind |-> "keystores", node |-> i, pubs |-> [x \in 1..cfg.v |-> lk.pubshares[x][ShareIdx(i)]]]
-                /\ UNCHANGED <<cfg, phase, lk, cur, verdict>>
+                /\ Back
 
 \* recombining the shares held by the node set S
 Combine(S) == /\ Idle /\ cfg.src = "create" /\ S \subseteq 1..cfg.n
               /\ obs' = [kind |-> "combine", nodes |-> S, ok |-> Cardinality(S) >= lk.threshold,
                          pubs |-> IF Cardinality(S) >= lk.threshold THEN lk.pubkeys ELSE <<>>]
-              /\ UNCHANGED <<cfg, phase, lk, cur, verdict>>
+              /\ Back
 
 \* node i's deposit-data files: one file per distinct amount, one valid entry per validator, equal to the lock's
 DepositFilesOK(files) ==
@@ -250,17 +252,17 @@ DepositFilesOK(files) ==
                  /\ lk.deps[x][j].wc = e.wc /\ lk.deps[x][j].sig = e.sig
 Deposits(i, files) == /\ Idle /\ cfg.src = "create" /\ i \in 1..cfg.n /\ DepositFilesOK(files)
                       /\ obs' = [kind |-> "deposits", node |-> i]
-                      /\ UNCHANGED <<cfg, phase, lk, cur, verdict>>
+                      /\ Back
 
 \* one leaf of a copy of the pristine file is altered (changed: the new VALUE differs), or the file is rewritten
 Tamper(full, kind, changed) ==
   /\ Idle /\ HasRow(full) /\ kind \in KindsOf(RowOf(full))
   /\ cur' = [state |-> "altered", leaf |-> RowOf(full).p, kind |-> kind, changed |-> changed]
-  /\ verdict' = "none" /\ UNCHANGED <<cfg, phase, lk, obs>>
+  /\ verdict' = "none" /\ obs' = NoObs /\ UNCHANGED <<cfg, phase, lk>>
 Rewrite(kind) ==
   /\ Idle /\ kind \in Rewrites
   /\ cur' = [state |-> "altered", leaf |-> "*", kind |-> kind, changed |-> FALSE]
-  /\ verdict' = "none" /\ UNCHANGED <<cfg, phase, lk, obs>>
+  /\ verdict' = "none" /\ obs' = NoObs /\ UNCHANGED <<cfg, phase, lk>>
 
 \* loading the altered file: may only fail if the alteration need not stay undetected; an unaltered value keeps all
 \* hashes (heq: the three hashes, recomputed and as stored, equal the pristine ones)
